@@ -13,6 +13,7 @@ import (
 	"github.com/pion/ice/v4"
 	"github.com/pion/logging"
 	"github.com/pion/transport/v4/packetio"
+	"github.com/pion/webrtc/v4/internal/verifhook"
 )
 
 const (
@@ -199,6 +200,7 @@ func (m *Mux) dispatch(buf []byte) error {
 }
 
 func (m *Mux) handlePendingPackets(endpoint *Endpoint, matchFunc MatchFunc) {
+	verifhook.Yield("mux.pending.entry", m, 0)
 	m.lock.Lock()
 	defer m.lock.Unlock()
 
